@@ -230,6 +230,17 @@ func RunClpHistories(c Ctx, rep *report.Report, rng *chain.Rng, o HistOpts, next
 			dm := sdk.NewDecWithPrec(int64(rng.Intn(1001)), 2)
 			p := &clptypes.RewardPeriod{RewardPeriodId: "rp", RewardPeriodStartBlock: st, RewardPeriodEndBlock: st + uint64(1+rng.Intn(10)),
 				RewardPeriodAllocation: &au, RewardPeriodDefaultMultiplier: &dm, RewardPeriodDistribute: rng.Intn(2) == 0, RewardPeriodMod: uint64(rng.Intn(4))}
+			// per-pool multipliers, incl. a pool excluded from rewards (multiplier 0) that sorts before the others
+			for ti, t := range toks {
+				switch {
+				case ti == 0 && rng.Intn(3) == 0:
+					z := sdk.ZeroDec()
+					p.RewardPeriodPoolMultipliers = append(p.RewardPeriodPoolMultipliers, &clptypes.PoolMultiplier{PoolMultiplierAsset: t, Multiplier: &z})
+				case rng.Intn(4) == 0:
+					m := sdk.NewDecWithPrec(int64(rng.Intn(1001)), 2)
+					p.RewardPeriodPoolMultipliers = append(p.RewardPeriodPoolMultipliers, &clptypes.PoolMultiplier{PoolMultiplierAsset: t, Multiplier: &m})
+				}
+			}
 			mustOK(e.AddRewardPeriods([]*clptypes.RewardPeriod{p}), "reward period")
 			desc["reward_alloc"] = au.String()
 		}
